@@ -88,7 +88,7 @@ m = {
  "engines": [{"name": n, "path": "engines/"+n, "serves_properties": p, "kind_free_text": "deterministic simulation: "+k} for n,(p,k) in ENGINES.items()],
  "checks": [],
  "not_applicable": [],
- "notes": "see DESIGN.md; ./check selftest-determinism and selftest/mutants.sh are the simulator's own self-tests; the race-detector builds of bsp, logbatch, metricsim, spanlin, lifecycle, globalsim and promsim are linked with -ldflags=-checklinkname=0 (they enter synctest bubbles through the runtime entry point, DESIGN.md §2.11)",
+ "notes": "see DESIGN.md; ./check selftest-determinism and selftest/mutants.sh are the simulator's own self-tests; the race-detector builds of bsp, logbatch, metricsim, spanlin, lifecycle, globalsim and promsim are linked with -ldflags=-checklinkname=0 (they enter synctest bubbles through the runtime entry point, DESIGN.md §2.11); the quick commands run a fixed number of seeds per worker slot rather than a fixed time, so the coverage numbers in evidence/<id>.json are the same on any machine and only the duration (26-33 s on the idle 16-core sandbox) varies; VERIF_BUDGET_SEC selects a timed run instead (DESIGN.md §2.12)",
 }
 for pid, c in sorted(CHECKS.items()):
     m["checks"].append({
